@@ -98,6 +98,26 @@ DESC = {
  "C18-r4-2": "worker pool of `NumCPU()-1`; needs a process confined to one CPU → deadlock",
  "C19-r4-1": "C++ template lookup validates the middle with one `strtol` (skips a space, accepts `+`); needs `shot 0001.exr` next to a lookup of `shot#.exr`",
  "C19-r4-2": "C++ `Range::index` through `int abs(int)`; needs a position ≥ 2^31 inside one block",
+ "C01-r5-1": "adjoining sub-ranges joined using the stored end of the previous block; needs a block whose stored end is off its lattice (`1-10x4,13-20x4` style)",
+ "C01-r5-2": "`Inverted()`/`Normalized()` sort the receiver's block slice in place; needs a derived set taken before the receiver is observed again",
+ "C03-r5-1": "range group of `splitPattern` accepts `, `; needs a basename ending in `<digit>, ` (`Scene 3, `)",
+ "C03-r5-2": "dir/base split honours a backslash when there is no `/`; needs `C:\\renders\\beauty.` as a name",
+ "C04-r5-1": "pooled path buffer returned dirty on the unsupported-frame-type error; needs a rejected `Frame(x)` before a good one",
+ "C04-r5-2": "path built by one `Sprintf`; needs a `%` in the extension",
+ "C06-r5-1": "`Lstat` pre-check; needs the directory argument to be a symlink spelled without a trailing separator",
+ "C06-r5-2": "symlink filter keeps only links to regular files; needs a link to a device / dangling link",
+ "C08-r5-1": "windowed membership table with a negative remainder; needs a descending block with |step| ≥ 2 across a 4096-value window",
+ "C08-r5-2": "bisects a `Min()`-sorted copy of > 64 blocks asking one block only; needs a stepped block with other blocks between its frames",
+ "C09-r5-1": "fixed 256-entry scratch for the sorted copy; needs `sorted=true` with ≥ 257 frames (returns \"\")",
+ "C09-r5-2": "sorted copy from a `sync.Pool` put back before use; needs concurrent long `FramesToFrameRange(…, true, …)` calls (found by the C16 racer; C09 alone reports the broken tie only)",
+ "C10-r5-1": "`SetPaddingStyle` returns before switching the mapper when the characters read the same; needs `@@@` then a later `SetPadding(\"#\")`",
+ "C10-r5-2": "`FindSequenceOnDiskPad` parses the pattern before the style option is read; needs a style option different from the parameter, `#`, strict padding (a C07 behaviour: found by the C07 check, invisible to C10's operations)",
+ "C11-r5-1": "hand scanner accepts non-ASCII decimal digits",
+ "C11-r5-2": "pooled scratch slice + skipped empty component; needs an earlier call with more components in the same process",
+ "C13-r5-1": "`Normalized()` fast path shares the block slice; needs 3/5/6/7/9 sorted, non-touching unit-step runs, then appends to both",
+ "C13-r5-2": "ceil-division in `InclusiveRange.Len` overflows; needs `end-start+step` beyond int64",
+ "C14-r5-1": "digit-count table stops at 1e9; needs wide padding (≥ 12) on frames ≥ 1e10",
+ "C14-r5-2": "disjoint short-circuit reads the 0 sentinel of an empty list; needs a first range through 0 over an empty container",
  "C20-r4-1": "map compaction copies under RLock and swaps under Lock; needs ≥ 1024 handles released while another thread releases or creates",
  "C20-r4-2": "handle = address of the entry; needs release, a GC cycle, re-creation (the id comes back)",
  "C02-r2-2": "`Frames()` memoised and shared; needs Frames → caller mutates the slice → query again",
